@@ -34,7 +34,7 @@ def coords(kind, n, decimals, unit, seed):
     elif kind == "negative":
         c = -np.stack([0.5 + (i % 17) * 0.211 + (i // 17) * 0.013, 11.25 + ((i * 7 + seed) % 23) * 0.173 + (i // 23) * 0.017, 0.75 + ((i * 3) % 29) * 0.131 + (i // 29) * 0.019], axis=1)
     elif kind == "touching":  # every field filled to its full width with a minus sign: neighbouring fields touch
-        base = {3: -100.0, 4: -1000.0, 5: -100.0}[decimals]
+        base = {3: -100.0, 4: -1000.0, 5: -100.0, 10: -100.0}[decimals]
         c = np.stack([base - (i % 37) * 1.017 - (i // 37) * q, base * 2 - ((i * 7 + seed) % 41) * 1.003 - (i // 41) * q, base * 3 - ((i * 3) % 43) * 2.011 - (i // 43) * q], axis=1)
     elif kind == "wide-positive":
         base = {3: 1000.0, 4: 10000.0, 5: 1000.0}[decimals]
@@ -528,7 +528,7 @@ class WFNW(Fmt):
 
 class WFXW(WFNW):
     name = "wfx"
-    space = [a for a in WFNW.space if a[0] not in ("exponents", "mo")] + [("mo", ["restricted", "unrestricted"]), ("gradient", [False, True])]
+    space = [("natom", [3, 1, 2])] + [a for a in WFNW.space if a[0] not in ("exponents", "mo", "natom")] + [("mo", ["restricted", "unrestricted"]), ("gradient", [False, True, "rotated-rows", "reversed-rows"])]
 
     def make(self, c, seed):
         from ref import gto, wfwriters
@@ -543,7 +543,9 @@ class WFXW(WFNW):
             spins = ["Alpha and Beta"] * norb
             nal, nbe = 3, 2
         grad = np.arange(3.0 * len(z)).reshape(-1, 3) * 0.015625 - 0.125 if c["gradient"] else None
-        text = wfwriters.wfx(c["title"], z, [float(v) for v in z], xyz, prims, mos, spins, -76.0625, 2.00125, nal, nbe, 0.0, grad)
+        # every gradient row carries the name of its nucleus: the rows may be printed in any order
+        order = None if c["gradient"] in (False, True) else list(range(1, len(z))) + [0] if c["gradient"] == "rotated-rows" else list(range(len(z)))[::-1]
+        text = wfwriters.wfx(c["title"], z, [float(v) for v in z], xyz, prims, mos, spins, -76.0625, 2.00125, nal, nbe, 0.0, grad, order)
         truth = wfwriters.eval_primitive_orbitals(xyz, prims, mos, gto.PROBE_POINTS[:8] + xyz[0])
         exp = [("atnums", z, None), ("atcoords", xyz, 1e-12), ("title", c["title"], None), ("@orbital-values+origin", (truth, xyz[0]), 1e-9), ("mo.occs", [m[1] for m in mos], 1e-12),
                ("mo.energies", [m[2] for m in mos], 1e-12), ("energy", -76.0625, 1e-12), ("extra.virial_ratio", 2.00125, 1e-12), ("mo.kind", c["mo"], None)]
@@ -552,7 +554,34 @@ class WFXW(WFNW):
         return "m.wfx", text, exp, {}
 
 
-FORMATS = [FCHKW(), WFNW(), WFXW(), XYZ(), EXTXYZ(), PDB(), MOL2(), SDF(), GRO(), CRD(), VASP(), CHGCAR(), LOCPOT(), CUBE(), GJF(), FCIDUMP(), GLOG()]
+class GAMESS(Fmt):
+    name = "gamess"
+    space = [("natom", [3, 1, 34]), ("steps", [1, 2]), ("sections", ["all", "no-hessian", "no-masses", "hessian-only"]), ("approx_hessian", [False, True]), ("coords", ["small", "negative", "touching"]), T(11)]
+
+    def make(self, c, seed):
+        n = c["natom"]
+        z = elements("many", n, seed)
+        r = coords(c["coords"], n, 10, ANG, seed)
+        steps = []
+        for k in range(c["steps"]):
+            last = k == c["steps"] - 1
+            grad = None if c["sections"] == "hessian-only" else np.array([[float(f"{v:.10E}") for v in row] for row in (np.arange(3.0 * n).reshape(n, 3) * 0.0009765625 - 0.0123 * (k + 1))])
+            steps.append((r if last else r + 0.125 * ANG, -40.5 - 0.25 * k, grad))
+        hess = sym2(3 * n, seed + 2, 0.25) if c["sections"] in ("all", "no-masses", "hessian-only") else None
+        approx = sym2(3 * n, seed + 5, 0.5) if c["approx_hessian"] else None
+        masses = [round(periodic_mass(zi), 5) for zi in z] if c["sections"] in ("all", "no-hessian") else None
+        text = writers.gamess_punch(c["title"], z, steps, hess, approx, masses)
+        exp = [("title", c["title"].strip(), None), ("atnums", z, None), ("atcoords", r, 1e-9)]
+        if steps[-1][2] is not None:
+            exp += [("energy", steps[-1][1], 1e-12), ("atgradient", steps[-1][2], 1e-15)]
+        if hess is not None:
+            exp.append(("athessian", np.array([[float(f"{v:.8E}") for v in row] for row in hess]), 1e-15))
+        if masses is not None:
+            exp.append(("@mass-ratios", np.array(masses) / masses[0], 1e-9))  # the unit of the masses is C04's subject
+        return "m.dat", text, exp, {}
+
+
+FORMATS = [FCHKW(), WFNW(), WFXW(), GAMESS(), XYZ(), EXTXYZ(), PDB(), MOL2(), SDF(), GRO(), CRD(), VASP(), CHGCAR(), LOCPOT(), CUBE(), GJF(), FCIDUMP(), GLOG()]
 
 
 def lookup(obj, path):
@@ -593,7 +622,11 @@ def compare(obj, exp):
                 i, p = (0, 0) if got.shape != want.shape else np.unravel_index(np.abs(got - want).argmax(), want.shape)
                 problems.append(("orbital-values", f"orbital {i} at probe point {p}: the file denotes {want[i, p] if got.shape == want.shape else want.shape!r}, the loaded object {got[i, p] if got.shape == want.shape else got.shape!r}"))
             continue
-        got = lookup(obj, path)
+        if path == "@mass-ratios":
+            got = None if obj.atmasses is None or len(obj.atmasses) == 0 else np.asarray(obj.atmasses, dtype=float) / float(obj.atmasses[0])
+            path = "atmasses(relative)"
+        else:
+            got = lookup(obj, path)
         if got is None:
             problems.append((path, f"{path}: expected {short(want)}, loaded None"))
             continue
